@@ -19,4 +19,5 @@ Definition wobs_model_ok (s : wobs) : bool :=
      | Raise e, Raise e' => exn_isa e e'
      | _, _ => false
      end.
-Definition wfm_model_ok (c : wfmcase) : bool := match c with WHist steps => forallb wobs_model_ok steps end.
+Definition wfm_model_ok (c : wfmcase) : bool :=
+  match c with WHist steps => forallb wobs_model_ok steps | WObs flags => forallb (fun b => b) flags end.
